@@ -137,7 +137,8 @@ impl Mt {
     fn expected_f32(&self, d: i64) -> f32 {
         match self {
             Mt::Euclid => (d as f32).sqrt(),
-            Mt::Dot | Mt::Manh => d as f32,
+            Mt::Dot => -((-d) as f32), // the code negates the dot product: -(0.0) = -0.0
+            Mt::Manh => d as f32,
             Mt::Cos(s2) => d as f32 / *s2 as f32,
         }
     }
